@@ -72,4 +72,22 @@ def run(tier):
 
 
 def replay(path):
-    return gen_replay(path)
+    """regenerates the recorded tree and pokes an instance of the recorded class again (constructed from the recorded value, and deserialized)"""
+    import json
+    r = json.load(open(path))
+    inp = r.get('input')
+    if not isinstance(inp, dict) or 'xml' not in inp or inp.get('value') is None:
+        return replay_broken(r, 'C19')
+    S = Scratch()
+    runner = GenRunner(S, workers=1)
+    tree = xml_to_tree(inp['xml'])
+    body = dict(all_classes_of(tree)).get(inp['cls'], [])
+    arrays = [i['attrs']['name'] for i in flat_body(body) if i['tag'] == 'array' and str(i['attrs'].get('optional', '')).lower() != 'true']
+    res = runner.run([dict(id=0, files=inp['xml'], jobs=[dict(op='immut', cls=inp['cls'], value=inp['value'], arrays=arrays, poison=None)])])[0]
+    probs = []
+    if not res.get('accepted') or res.get('import_error'):
+        probs.append(f"generated package unusable: {res.get('error') or res.get('import_error')}")
+    for out in res.get('results', []):
+        probs += out.get('problems', []) + ([out['harness_error']] if 'harness_error' in out else [])
+    print("replay:", probs[0][:500] if probs else "property holds on this input")
+    return 1 if probs else 0
